@@ -473,6 +473,13 @@ func (g *Gen) between() {
 	}
 	if roll(b.LVFO) && len(g.pins) == 0 {
 		v := g.retainedPick()
+		if !b.SortedWrites && g.cur == g.latest && r.Chance(1, 3) {
+			// roll back with uncommitted changes pending: they must be discarded too
+			g.writes()
+			if r.Chance(1, 2) {
+				v = g.latest
+			}
+		}
 		g.emit(Step{Op: OpLVFO, N: v})
 		g.latest, g.cur = v, v
 		g.curOps, g.dirty = nil, false
@@ -490,12 +497,18 @@ func (g *Gen) between() {
 		g.curOps, g.dirty = nil, false
 	}
 	if roll(b.Reopen) && len(g.pins) == 0 {
+		if !b.SortedWrites && g.cur == g.latest && r.Chance(1, 4) {
+			g.writes() // uncommitted changes are lost by a restart
+		}
 		g.emit(Step{Op: OpReopen, Fast: g.fastChoice(), Cache: ip(r.Pick(0, 1, 2, 7, 1000))})
 		g.cur = g.latest
 		g.curOps, g.dirty = nil, false
 	}
 	if roll(b.Load) && len(g.pins) == 0 {
 		v := g.retainedPick()
+		if !b.SortedWrites && g.cur == g.latest && r.Chance(1, 4) {
+			g.writes() // LoadVersion on a handle with uncommitted changes discards them
+		}
 		op := OpLoad
 		s := Step{Op: op, N: v}
 		if r.Chance(1, 2) {
